@@ -67,6 +67,7 @@ structure S where
   implNodes : Option (List String) := none
   pendingInject : Option (Sig × Nat) := none
   implRoutes : List (Sig × Nat × List String) := []
+  implCycle : Option (List String) := none
   bad : Option String := none
 
 def firstDiff (want got : List String) : String :=
@@ -112,6 +113,7 @@ def handler : Handler S where
     match toks with
     | "obs" :: "build" :: rest => { s with implBuild := some (" ".intercalate rest) }
     | "obs" :: "nodes" :: rest => { s with implNodes := some rest }
+    | "tr" :: "cycle" :: rest => { s with implCycle := some rest }
     | "obs" :: "route" :: _ :: rest =>
       match s.pendingInject with
       | some (sg, i) => { s with implRoutes := s.implRoutes ++ [(sg, i, rest)], pendingInject := none }
@@ -158,9 +160,17 @@ def handler : Handler S where
           else if (got.map expOf).any (fun e => !((want.map expOf).contains e)) then "unlisted-exporter-reached"
           else "wrong-multiplicity"
         some s!"prop routing=FAIL sig=C09/routing/{cls} recv={sg.toNat}:{i} {firstDiff want got}")
+    -- content of the cycle error: the printed sequence must be a closed walk of the graph starting at a connector
+    let cycleProp :=
+      match s.implCycle with
+      | none => if s.implBuild = some "err=cycle" then "prop cyclemsg=FAIL sig=C09/reject/cycle-error-without-cycle" else "prop cyclemsg=ok"
+      | some toks =>
+        match toks.mapM parseNode with
+        | none => s!"prop cyclemsg=FAIL sig=C09/reject/cycle-message-unparsable {toks}"
+        | some l => if cycleMsgOk cfg l then "prop cyclemsg=ok" else s!"prop cyclemsg=FAIL sig=C09/reject/cycle-message-not-a-cycle {toks}"
     match s.bad with
     | some b => [s!"prop protocol=FAIL sig=C09/harness/unparsable {b}"]
-    | none => [rejectProp, sharingProp, routeFail.getD "prop routing=ok"]
+    | none => [rejectProp, sharingProp, routeFail.getD "prop routing=ok", cycleProp]
 
 end OtelVerif.Drivers.C09
 
